@@ -431,6 +431,14 @@ struct stack_policy
             std::size_t used = cur.size - after.capleft;
             if (used < l.bytes + 2 * cfg_fence || used > l.bytes + 2 * cfg_fence + (l.align ? l.align : 1))
                 t.fail("M-counters", "capacity-delta-alloc", fmt("allocation of %u bytes consumed %zu bytes of the fresh block", l.bytes, used));
+            // ... and exactly: fences, the bytes, and the padding the position in the NEW block requires (seed C18-N kept the padding
+            // computed for the top of the old block)
+            std::size_t a      = l.align ? l.align : 1;
+            std::size_t minpad = (a - (reinterpret_cast<std::uintptr_t>(cur.memory) + cfg_fence) % a) % a;
+            if (used != l.bytes + 2 * cfg_fence + minpad)
+                t.fail("M-counters", "capacity-delta-grow",
+                       fmt("allocation of %u bytes (alignment %zu) consumed %zu bytes of the fresh block, its position requires %zu padding and fence %zu",
+                           l.bytes, a, used, minpad, cfg_fence));
         }
         else
         {
